@@ -6,7 +6,7 @@
    session), and the response body built from the response table must come
    back as the specification's record (C07: composition RMCP + wrapper +
    message + body). *)
-EXTENDS LayerExpect, Crypto, Json, FiniteSets, TLC
+EXTENDS DcmiCaps, Crypto, Json, FiniteSets, TLC
 
 CONSTANTS Seed, Family, Tier
 S == [authAlg |-> "sha256", integAlg |-> "sha256", authNum |-> 3, integNum |-> 4, confNum |-> 1, icvLen |-> 16, integLen |-> 16,
@@ -41,48 +41,70 @@ CapsParam(n) == CASE n = "DCMICapsSupportedCapabilities" -> 1 [] n = "DCMICapsMa
                   [] n = "DCMICapsManageabilityAccessAttrs" -> 4 [] n = "DCMICapsEnhancedSystemPowerStatisticsAttrs" -> 5 [] OTHER -> 0
 ReqOk(c, r) == /\ (c.name = "SetSessionPrivilegeLevel" => r["PrivilegeLevel"] # 1)
                /\ (c.name = "CloseSession" => r["ID"] # <<0, 0, 0, 0>>)
-               /\ (c.name = "GetDCMISensorInfo" => r["Instance"] = 0)
 ReqRecs(c, k) == IF c.reqT = NoT THEN {<<>>} ELSE {r \in {Base(c.reqT, k), Base(c.reqT, k + 1), Base(c.reqT, k + 2)} : ReqOk(c, r)}
-ReqBytes(c, r) == IF c.name = "GetPowerReading" THEN <<1, 0, 0>> ELSE IF CapsParam(c.name) > 0 THEN <<CapsParam(c.name)>> ELSE IF c.reqT = NoT THEN <<>> ELSE Encode(c.reqT, r)
+\* DCMI 6.5.2: the instance start offset only applies to "all instances"; with a specific instance it is sent as 0
+ReqBytes(c, r) == IF c.name = "GetPowerReading" THEN <<1, 0, 0>> ELSE IF CapsParam(c.name) > 0 THEN <<CapsParam(c.name)>> ELSE IF c.reqT = NoT THEN <<>>
+                  ELSE IF c.name = "GetDCMISensorInfo" /\ r["Instance"] # 0 THEN Encode(c.reqT, [r EXCEPT !["InstanceStart"] = 0]) ELSE Encode(c.reqT, r)
+\* responses without a fixed table: [bytes, value]
+CapsName(c, k) == IF c.name = "DCMICapsMandatoryPlatformAttrs" THEN (IF k % 2 = 0 THEN "DCMICapsMandatoryPlatformAttrsRsp4" ELSE "DCMICapsMandatoryPlatformAttrsRsp5")
+                  ELSE c.name \o "Rsp"
+Periods(k) == [i \in 1..((k * 5) % 7) |-> (k * 29 + i * 53) % 256]
+VarRsp(c, k) ==
+  IF c.name = "DCMICapsEnhancedSystemPowerStatisticsAttrs"
+  THEN [bytes |-> PowerStatsBytes(<<1, 5, 2>>, Periods(k)), value |-> PowerStatsExpected(<<1, 5, 2>>, Periods(k))]
+  ELSE IF CapsParam(c.name) > 0
+  THEN LET n == CapsName(c, k)  r == CapsBase(n, k, 1 + (k % 4)) IN [bytes |-> Encode(CapsTables[n], r), value |-> CapsExpected(n, r)]
+  ELSE IF c.name = "GetChannelCipherSuites"
+  THEN LET ch == [i \in 1..((k * 3) % 17) |-> (k + i * 7) % 256] IN [bytes |-> <<k % 16>> \o ch, value |-> [Channel |-> k % 16, CipherSuiteRecordsChunk |-> ch]]
+  ELSE LET ids == [i \in 1..((k * 3) % 9) |-> (k * 1031 + i * 257) % 65536] IN     \* Get DCMI Sensor Info
+       [bytes |-> <<(k * 7) % 256, Len(ids)>> \o Flatten([i \in 1..Len(ids) |-> LE16(ids[i])]), value |-> [Instances |-> (k * 7) % 256, RecordIDs |-> ids]]
+HasVarRsp(c) == CapsParam(c.name) > 0 \/ c.name \in {"GetChannelCipherSuites", "GetDCMISensorInfo"}
 RspRec(c, k) == IF c.rspN = "" THEN <<>> ELSE LET T == Tables[c.rspN]  b == Base(T, k) IN
                 IF c.rspN = "GetPowerReadingRsp" THEN [b EXCEPT !["periodMs"] = <<232, 3, 0, 0>>] ELSE b
-RspBytes(c, k) == IF CapsParam(c.name) > 0 THEN <<1, 5, 2, 1, 2, 3, 4, 5, 6>>
-                  ELSE IF c.name = "GetChannelCipherSuites" THEN <<14, 192, 3, 1, 65, 129>>
-                  ELSE IF c.name = "GetDCMISensorInfo" THEN <<2, 1, 7, 0>>
+RspBytes(c, k) == IF HasVarRsp(c) THEN VarRsp(c, k).bytes
                   ELSE IF c.rspN = "" THEN <<>> ELSE Encode(Tables[c.rspN], RspRec(c, k))
 Lun(c, k) == IF c.name = "GetSensorReading" THEN k % 4 ELSE 0
 
-CallV(c, r, k, tg, vprop) ==
+CallV(c, r, k, tg, vprop, keep) ==
   LET args0 == IF c.name = "GetPowerReading" THEN [Req |-> [Mode |-> 1, Period |-> [s |-> 0, ns |-> 0]]]
                ELSE IF c.reqT = NoT THEN <<>> ELSE [Req |-> r]
       args == IF c.name = "GetSensorReading" THEN args0 @@ [OwnerLUN |-> Lun(c, k)] ELSE args0
-  IN [k |-> "call", api |-> "Cmd", cmd |-> c.name, label |-> c.name, target |-> tg]
+  IN [k |-> "call", api |-> "Cmd", cmd |-> c.name, label |-> c.name, target |-> tg, keep |-> keep]
      @@ (IF args = <<>> THEN <<>> ELSE [args |-> args])
      @@ [exp |-> [prop |-> "C06", rslun |-> Lun(c, k),
                   reqs |-> << [pt |-> 0, netfn |-> c.netfn, cmd |-> c.num, data |-> c.group \o ReqBytes(c, r)] >>]
-                 @@ (IF c.rspN = "" THEN [outcome |-> "noerror"]
+                 @@ (IF HasVarRsp(c) THEN [outcome |-> "agrees", vprop |-> vprop, value |-> VarRsp(c, k).value]
+                     ELSE IF c.rspN = "" THEN [outcome |-> "noerror"]
                      ELSE [outcome |-> "agrees", vprop |-> vprop, value |-> Expected(c.rspN, Tables[c.rspN], RspRec(c, k))])]
 MsgBytes(c, k) == MsgRspBytes(129, c.netfn + 1, 0, 1, Lun(c, k), c.num, 0, c.group \o RspBytes(c, k))
 ReactIn(c, k, j) == [React0 EXCEPT !.datagrams = << Dg(SessPacket(S, LE32s(j), B(MsgBytes(c, k)), [i \in 1..16 |-> (i + j) % 256]), [kind |-> "rsp", valid |-> TRUE, code |-> 0]) >>]
 ReactOut(c, k) == [React0 EXCEPT !.datagrams = << Dg(NullWrapper(0, B(MsgBytes(c, k))), [kind |-> "rsp", valid |-> TRUE, code |-> 0]) >>]
 
-RECURSIVE StepsFor(_, _, _, _, _)
-StepsFor(cs, k, tg, j, vprop) ==
+RECURSIVE StepsFor(_, _, _, _, _, _)
+StepsFor(cs, k, tg, j, vprop, keep) ==
   IF cs = <<>> THEN <<>> ELSE
   LET c == Head(cs)
       rs == ReqRecs(c, k + j)
       r == CHOOSE x \in rs : TRUE
-  IN (IF rs = {} THEN <<>> ELSE << CallV(c, r, k + j, tg, vprop), IF tg = "sess" THEN ReactIn(c, k + j, j) ELSE ReactOut(c, k + j) >>)
-     \o StepsFor(Tail(cs), k, tg, j + 1, vprop)
+  IN (IF rs = {} THEN <<>> ELSE << CallV(c, r, k + j, tg, vprop, keep), IF tg = "sess" THEN ReactIn(c, k + j, j) ELSE ReactOut(c, k + j) >>)
+     \o StepsFor(Tail(cs), k, tg, j + 1, vprop, keep)
 \* one script per (seed offset, target): every command once, in table order and in reverse (results must not depend on what preceded)
 Rev(q) == [i \in 1..Len(q) |-> q[Len(q) + 1 - i]]
+\* every command twice in a row through one command value the caller keeps, with different response contents
+Dup(q) == [i \in 1..(2 * Len(q)) |-> q[(i + 1) \div 2]]
 Script(id, k, tg, rev) ==
   [id |-> id, prefix |-> IF tg = "sess" THEN "hs" ELSE "",
    info |-> [family |-> "api", insess |-> tg = "sess", integLen |-> S.integLen, bmcSid |-> S.bmcSid],
    \* the same commands in reverse order: a result that differs only there depends on what preceded it (C17)
-   steps |-> StepsFor(IF rev THEN Rev(Cmds(k)) ELSE Cmds(k), k, tg, 1, IF rev THEN "C17" ELSE "C07")]
+   steps |-> StepsFor(IF rev THEN Rev(Cmds(k)) ELSE Cmds(k), k, tg, 1, IF rev THEN "C17" ELSE "C07", FALSE)]
+Twice(id, k, tg, vprop) ==
+  [id |-> id, prefix |-> IF tg = "sess" THEN "hs" ELSE "",
+   info |-> [family |-> "api-twice", insess |-> tg = "sess", integLen |-> S.integLen, bmcSid |-> S.bmcSid],
+   steps |-> StepsFor(Dup(Cmds(k)), k, tg, 1, vprop, TRUE)]
 Scripts == { Script("api-" \o tg \o "-" \o ToString(k) \o (IF rv THEN "r" ELSE "f"), Seed * 100 + k, tg, rv)
              : k \in 1..(IF Tier = "thorough" THEN 40 ELSE 8), tg \in {"conn", "sess"}, rv \in BOOLEAN }
+           \cup { Twice("api2-" \o tg \o "-" \o ToString(k) \o "-" \o vp, Seed * 100 + k, tg, vp)
+                  : k \in 1..(IF Tier = "thorough" THEN 24 ELSE 6), tg \in {"conn", "sess"}, vp \in {"C07", "C17"} }
 Header == [header |-> TRUE, family |-> "api", defs |-> SessionDefs(S), stable |-> <<"SIK", "K1", "K2">>,
            session |-> SessionRecipes(S), prefixes |-> [hs |-> HandshakeSteps(S)]]
 ASSUME PrintT(<<"HEADER", ToJson(Header)>>)
